@@ -79,6 +79,7 @@ class Group:
     note: str = ''
     param: str = ''                     # distinguishing parameter (type pair, loop shape ...)
     ignore: str = None                  # regex on obligation keys of harness helper code that are not obligations on libocca
+    model_limits: str = None            # regex on keys of model-capacity assertions: their failure means undecided, not violation
 
 
 @dataclasses.dataclass
@@ -337,6 +338,18 @@ def run_group(ctx, g):
                                 % (n, g.expect_loops))
         if g.unwind is not None or g.unwindset:
             pass
+        # a failed unwinding assertion or model-capacity assertion means a bound of the harness was too small
+        # for this tree: that is undecided (exit 2), never a violation; failures of other obligations found
+        # within the bound are real and are still reported
+        def is_limit(o):
+            return o.status == 'FAILURE' and ('.unwind.' in o.prop or '.recursion.' in o.prop or 'stub capacity' in o.key or
+                                              (g.model_limits and re.search(g.model_limits, o.key)))
+        limits = [o for o in obs if is_limit(o)]
+        if limits:
+            obs = [o for o in obs if not is_limit(o)]
+            res.obligations = obs
+            if not any(o.status == 'FAILURE' for o in obs):
+                raise Undecided('bound of the harness exceeded (%s): %s' % (len(limits), '; '.join(sorted({o.key for o in limits}))[:300]))
         if any(o.status == 'FAILURE' for o in obs):
             res.status = 'failed'
         # must-fail canary: same harness with the deciding postcondition negated
